@@ -204,7 +204,18 @@ func c02Set(ctx *Ctx, ety cty.Type, ms []cty.Value) {
 		}
 	}
 	if h := s.HasElement(probe); !h.IsKnown() || h.True() != inRef {
-		ctx.Fail(Failure{Site: "haselement", Sig: "haselement:reference", What: "HasElement disagrees with a linear scan using Equals", Input: w + " " + encVal(probe), GoLit: s.GoString(), Outcome: h.GoString()})
+		sig, what := "haselement:reference", "HasElement disagrees with a linear scan using Equals"
+		if inRef && h.IsKnown() && h.False() {
+			// root cause: the probe Equals a member (number equality by shortest decimal text) but hashes differently
+			// (the hash uses the 10-significant-digit text), so the member's bucket is never looked at — the C03
+			// hash-coherence finding seen through HasElement
+			for _, m := range ms {
+				if m.Equals(probe).True() && hashOracle(m) != hashOracle(probe) {
+					sig, what = "haselement:equals-true-numbers-hash-differently", "HasElement misses a member that Equals the needle because the two hash differently (number equality is by shortest decimal text, the set hash by the 10-digit text)"
+				}
+			}
+		}
+		ctx.Fail(Failure{Site: "haselement", Sig: sig, What: what, Input: w + " " + encVal(probe), GoLit: s.GoString() + ".HasElement(" + probe.GoString() + ")", Outcome: h.GoString()})
 	}
 	// distinct count
 	distinct := 0
